@@ -35,7 +35,7 @@ def triple(refs, ri, a, b, c, rev, ro):
     return worlds.apply_edit(q, ('chimera', wc, 27000.0))
 
 
-def candidate_worlds(n_queries, equal_flanks=False):
+def candidate_worlds(n_queries, equal_flanks=False, dup_refs=False):
     """worlds with: a three-part query (two second-pass fragments), a two-part query (one fragment), two molecules of the SAME locus
     (identical leading labels, the second with a 400 bp insertion: equal label coordinates under different seed peaks), a sparse
     molecule whose candidate rows have secondary peaks but no qualifying segment (rows without pairs), plain windows, an unalignable one"""
@@ -57,7 +57,10 @@ def candidate_worlds(n_queries, equal_flanks=False):
         # ids are (30, 4, 17, 9, ...): the exact copy gets id 4 and is processed before its variant (id 9) when both share a worker
         qs = [tq, locus, chim[t % len(chim)], locus_b, sparse, plain[t % len(plain)], [100.0, 20000.0]][:n_queries]
         ids = (30, 4, 17, 9, 5216, 2, 8)
-        out.append(dict(refs=[refs[1], refs[0], refs[2]],
+        # dup_refs: the first standard reference is in the file twice (ids 40 and its own): every seed peak on it has an exactly equal
+        # twin, so anything that breaks ties by what a worker did before shows when tasks move between workers
+        rl = [refs[1], (40, refs[0][1], list(refs[0][2])), refs[0], refs[2]] if dup_refs else [refs[1], refs[0], refs[2]]
+        out.append(dict(refs=rl,
                         queries=[worlds.as_map(ids[j], q, trailing=(0.0, 2500.0)[j % 2]) for j, q in enumerate(qs)]))
     return out
 
@@ -126,9 +129,9 @@ def prescan(world):
 
 
 class Schedules(core.Layer):
-    def __init__(self, name, n_queries, W, n_worlds, seed, perturb_call1, cli_ks, optional=False, equal_flanks=False, fifo=True):
+    def __init__(self, name, n_queries, W, n_worlds, seed, perturb_call1, cli_ks, optional=False, equal_flanks=False, fifo=True, dup_refs=False):
         self.name, self.optional = name, optional
-        self.equal_flanks, self.fifo = equal_flanks, fifo
+        self.equal_flanks, self.fifo, self.dup_refs = equal_flanks, fifo, dup_refs
         self.n_queries, self.W, self.n_worlds, self.seed = n_queries, W, n_worlds, seed
         self.perturb_call1 = perturb_call1
         self.cli_ks = cli_ks
@@ -144,7 +147,7 @@ class Schedules(core.Layer):
         line = next((l for l in out.stdout.splitlines() if l.startswith('POOLPROBE ')), None)
         self.probe = json.loads(line[len('POOLPROBE '):]) if line else dict(ok=False, error=(out.stdout + out.stderr)[-600:])
         # 2. select worlds
-        for w in candidate_worlds(self.n_queries, self.equal_flanks):
+        for w in candidate_worlds(self.n_queries, self.equal_flanks, self.dup_refs):
             st, info = core.run_isolated(prescan, w)     # never run COMA tasks in this process: workers inherit its state
             if st != 'ok':
                 raise RuntimeError('prescan failed: %s' % info)
@@ -288,8 +291,10 @@ class CliWorkers(core.Layer):
 
     def __init__(self, name, cpus, optional=False):
         self.name, self.optional, self.cpus = name, optional, cpus
-        self.worlds = [candidate_worlds(6)[0], candidate_worlds(7)[3], decoy_world()]
+        self.worlds = [candidate_worlds(6)[0], candidate_worlds(7)[3], decoy_world(), candidate_worlds(7, dup_refs=True)[1]]
         self.items = [(wi, k, mode) for wi in range(len(self.worlds)) for k in cpus for mode in (('all',) if wi else ('all', 'joined'))]
+        # the same command a second time INTO THE SAME OUTPUT PATH (the files of the first run are still there)
+        self.items += [(wi, 'again', mode) for wi in (0, 2) for mode in ('all', 'joined')]
         self.bounds = dict(worlds=len(self.worlds), cpus=list(cpus), baseline='-c 1')
         self.rule = '%d real CLI runs, each compared with the -c 1 run of the same world and mode' % len(self.items)
         self.base = {}
@@ -313,7 +318,14 @@ class CliWorkers(core.Layer):
         acc.sample(lambda: dict(world='%d queries' % len(self.worlds[wi]['queries']), cpus=k, mode=mode))
 
     def run_item(self, world, base, k, mode, acc):
-        rc, err, raw = driver.run_cli(world, mode, cpus=k)
+        if k == 'again':
+            d = os.path.join(core.scratch_dir(), 'again-%d' % os.getpid())
+            os.makedirs(d, exist_ok=True)
+            rc, err, raw = driver.run_cli(world, mode, cpus=2, directory=d)
+            if rc == 0:
+                rc, err, raw = driver.run_cli(world, mode, cpus=2, directory=d, keep_outputs=True)
+        else:
+            rc, err, raw = driver.run_cli(world, mode, cpus=k)
         files = {x: driver.strip_echo(v) for x, v in raw.items()}
         found = []
         if base[0] != 0:
@@ -322,7 +334,7 @@ class CliWorkers(core.Layer):
             found.append(('execution-aborted', '-c %s: exit %s %s' % (k, rc, err[-300:]), 'cli', {'kind': 'cli'}))
         elif files != base[1]:
             diff = [x for x in sorted(set(files) | set(base[1])) if files.get(x) != base[1].get(x)]
-            found.append(('output-differs-between-cpus-values', 'mode %s: -c %s vs -c 1: files %s differ (%d vs %d lines in %s)' % (
+            found.append(('output-differs-on-repetition-into-the-same-path' if k == 'again' else 'output-differs-between-cpus-values', 'mode %s: -c %s vs -c 1: files %s differ (%d vs %d lines in %s)' % (
                 mode, k, diff, len(files.get(diff[0], [])), len(base[1].get(diff[0], [])), diff[0]), 'cli', {'kind': 'cli'}))
         if acc is not None:
             acc.evals += 1
@@ -385,9 +397,11 @@ def run_fresh(world, s1, s2, hashseed, mode='all'):
 
 def layers(tier, seed):
     tie = Schedules('ties:N4,W2', 4, 2, 1, seed, False, (2,), equal_flanks=True, fifo=False)
+    dup = Schedules('twin-reference:N4,W2', 4, 2, 1, seed, False, (), dup_refs=True)
     if tier == 'quick':
-        return [Schedules('N5,W3', 5, 3, 1, seed, False, (1, 3, 16)), tie, CliWorkers('cli', (2, 3, 4, 16))]
-    return [Schedules('N5,W3', 5, 3, 1, seed, True, (1, 2, 3, 5, 8, 16)), tie, CliWorkers('cli', (2, 3, 4, 5, 6, 7, 8, 12, 16)),
+        return [Schedules('N5,W3', 5, 3, 1, seed, False, (1, 3, 16)), tie, dup, CliWorkers('cli', (2, 3, 4, 16))]
+    return [Schedules('N5,W3', 5, 3, 1, seed, True, (1, 2, 3, 5, 8, 16)), tie, dup, Schedules('twin-reference:N5,W3', 5, 3, 1, seed, False, (3,), dup_refs=True),
+            CliWorkers('cli', (2, 3, 4, 5, 6, 7, 8, 12, 16)),
             Schedules('N6,W4', 6, 4, 1, seed, False, (2, 3)),
             Schedules('N7,W4', 7, 4, 1, seed, False, (3,), optional=True)]
 
